@@ -8,10 +8,11 @@ import Model.HelpersDriver
 import Model.CliDriver
 import Model.IterDriver
 import Model.Sequence
+import Model.PngDriver
 
 namespace Model
 
-def handlers : List (String → Req → Option String) := [handleCore, Lines.handle, Helpers.handle, CliDriver.handle, Iter.handle, handleSequence]
+def handlers : List (String → Req → Option String) := [handleCore, Lines.handle, Helpers.handle, CliDriver.handle, Iter.handle, handleSequence, PngDriver.handle]
 
 def handle (line : String) : String :=
   let (cmd, r) := parseReq line
